@@ -89,28 +89,17 @@ Hypothesis HTeletext : forall d, wfe_sim (wTeletext d) (Ok (enc_teletext d)).
 Hypothesis HVBIData : forall d, wfe_sim (wVBIData d) (Ok (enc_vbi_data d)).
 Hypothesis HUnknown : forall d, wfe_sim (wUnknown d) (Ok (enc_unknown d)).
 
-Notation gcalcDescriptorLength := (calcDescriptorLength cudl cel).
-Notation gcalcDescriptorsLength := (calcDescriptorsLength cudl cel).
-Notation gwriteDescriptor :=
-  (writeDescriptor cudl cel wUserDefined wAC3 wAVCVideo wComponent wContent wDataStreamAlignment wEnhancedAC3 wExtendedEvent
-     wExtension wISO639 wLocalTimeOffset wMaximumBitrate wNetworkName wParentalRating wPrivateDataIndicator
-     wPrivateDataSpecifier wRegistration wService wShortEvent wStreamIdentifier wSubtitling wTeletext wVBIData wUnknown).
-Notation gwriteDescriptors_loop1 :=
-  (writeDescriptors_loop1 cudl cel wUserDefined wAC3 wAVCVideo wComponent wContent wDataStreamAlignment wEnhancedAC3 wExtendedEvent
-     wExtension wISO639 wLocalTimeOffset wMaximumBitrate wNetworkName wParentalRating wPrivateDataIndicator
-     wPrivateDataSpecifier wRegistration wService wShortEvent wStreamIdentifier wSubtitling wTeletext wVBIData wUnknown).
-Notation gwriteDescriptors :=
-  (writeDescriptors cudl cel wUserDefined wAC3 wAVCVideo wComponent wContent wDataStreamAlignment wEnhancedAC3 wExtendedEvent
-     wExtension wISO639 wLocalTimeOffset wMaximumBitrate wNetworkName wParentalRating wPrivateDataIndicator
-     wPrivateDataSpecifier wRegistration wService wShortEvent wStreamIdentifier wSubtitling wTeletext wVBIData wUnknown).
-Notation gwriteDescriptorsWithLength :=
-  (writeDescriptorsWithLength cudl cel wUserDefined wAC3 wAVCVideo wComponent wContent wDataStreamAlignment wEnhancedAC3 wExtendedEvent
+(* f applied to the section's variables (the notation names no generated function: a function that is missing from
+   Gen/PsiWriteGen.v makes the LEMMA about it fail, by name) *)
+Notation gen_calc f := (f cudl cel).
+Notation gen_desc f :=
+  (f cudl cel wUserDefined wAC3 wAVCVideo wComponent wContent wDataStreamAlignment wEnhancedAC3 wExtendedEvent
      wExtension wISO639 wLocalTimeOffset wMaximumBitrate wNetworkName wParentalRating wPrivateDataIndicator
      wPrivateDataSpecifier wRegistration wService wShortEvent wStreamIdentifier wSubtitling wTeletext wVBIData wUnknown).
 
 (* ---- the length calculators ---- *)
 
-Lemma calcDescriptorLength_is_model d : gcalcDescriptorLength d = calc_descriptor_length d.
+Lemma calcDescriptorLength_is_model d : gen_calc calcDescriptorLength d = calc_descriptor_length d.
 Proof.
   unfold calcDescriptorLength, calc_descriptor_length, is_user_defined.
   rewrite Z.geb_leb, Hcudl, Hcel.
@@ -118,11 +107,15 @@ Proof.
   reflexivity.
 Qed.
 
-Lemma calcDescriptorsLength_is_model ds : gcalcDescriptorsLength ds = calc_descriptors_length ds.
+Lemma calcDescriptorsLength_step a d :
+  gen_calc calcDescriptorsLength_loop1 a d = ((a + 2) mod 65536 + calc_descriptor_length d) mod 65536.
+Proof. unfold calcDescriptorsLength_loop1. rewrite ?calcDescriptorLength_is_model. zmod_eq. Qed.
+
+Lemma calcDescriptorsLength_is_model ds : gen_calc calcDescriptorsLength ds = calc_descriptors_length ds.
 Proof.
-  unfold calcDescriptorsLength, calc_descriptors_length. change (0 mod 65536) with 0. generalize 0.
+  unfold calcDescriptorsLength, calc_descriptors_length. try change (0 mod 65536) with 0. generalize 0.
   induction ds as [|d ds IH]; intros a; [reflexivity|].
-  cbn [fold_left]. unfold calcDescriptorsLength_loop1 at 2. rewrite calcDescriptorLength_is_model. apply IH.
+  cbn [fold_left]. rewrite calcDescriptorsLength_step. apply IH.
 Qed.
 
 (* ---- writeDescriptor ---- *)
@@ -137,7 +130,7 @@ Ltac wbody_ok :=
 Ltac wdispatch o H :=
   destruct o as [x|]; [|wsimpl; reflexivity]; wsimpl; wmodel_cbn; wfe_call_ok (H x); wbody_ok.
 
-Lemma writeDescriptor_is_model d : wfn_sim (gwriteDescriptor d) (enc_descriptor d) (descriptor_written d).
+Lemma writeDescriptor_is_model d : wfn_sim (gen_desc writeDescriptor d) (enc_descriptor d) (descriptor_written d).
 Proof.
   unfold writeDescriptor, enc_descriptor, descriptor_written. rewrite calcDescriptorLength_is_model. wsimpl.
   destruct (calc_descriptor_length d =? 0).
@@ -178,7 +171,7 @@ Qed.
 (* ---- the loop and the 12-bit loop length ---- *)
 
 Lemma descriptors_loop_is l : forall written,
-  wm_sim snd (gwriteDescriptors_loop1 l written) (enc_descriptors l)
+  wm_sim snd (gen_desc writeDescriptors_loop1 l written) (enc_descriptors l)
          (fun w' => w' = fold_left (fun n d => n + descriptor_written d) l written).
 Proof.
   induction l as [|d l IH]; intros written.
@@ -190,7 +183,7 @@ Proof.
     split; [apply ieq_app; assumption | wnd].
 Qed.
 
-Lemma writeDescriptors_is_model ds : wfn_sim (gwriteDescriptors ds) (enc_descriptors ds) (descriptors_written ds).
+Lemma writeDescriptors_is_model ds : wfn_sim (gen_desc writeDescriptors ds) (enc_descriptors ds) (descriptors_written ds).
 Proof.
   unfold writeDescriptors. wsimpl.
   wm_call (descriptors_loop_is ds 0); try wfail.
@@ -200,7 +193,7 @@ Proof.
 Qed.
 
 Theorem writeDescriptorsWithLength_is_model ds :
-  wfn_sim (gwriteDescriptorsWithLength ds) (enc_descriptors_with_length ds) (descriptors_written ds + 2).
+  wfn_sim (gen_desc writeDescriptorsWithLength ds) (enc_descriptors_with_length ds) (descriptors_written ds + 2).
 Proof.
   unfold writeDescriptorsWithLength, enc_descriptors_with_length. rewrite calcDescriptorsLength_is_model. wsimpl.
   wfn_call (writeDescriptors_is_model ds); try wfail.
